@@ -99,6 +99,10 @@ const monthDataJSON = `{
 
 var monthData *MonthData
 
+func init() {
+	SetUseMonthData(useMonthData)
+}
+
 // ######## MonthData methods ########
 
 func (mdata *MonthData) Load() {
